@@ -6,7 +6,8 @@ import shutil
 
 from . import encode, genpel, project, seams
 
-REFS = ['BD8D1001', 'BD8D1002', 'BC8A1001', '11001001', 'BD701001', 'B1811001']
+REFS = ['BD8D1001', 'BD8D1002', 'BC8A1001', '11001001', 'BD701001', 'B1811001', 'BD8D2030', '110000AC']
+# (the last two are reason codes the message registry of seams.install_registry() knows)
 # reference codes that use more of the 32 characters (blanks inside, text behind the eight digits)
 REFS_LONG = ['BD8D1003 LP=0002', 'B7001111 LP=0002', 'BD8D1004        X', 'BC8A1002 A B', '11001002/P1-C5', 'BD8D', 'B181',
              'BD701002 0000000000000000000000Z']
